@@ -8,6 +8,7 @@ import (
 	"path/filepath"
 
 	"github.com/modernizing/coca/cmd"
+	"github.com/modernizing/coca/pkg/application/analysis/goapp"
 	"github.com/modernizing/coca/pkg/application/analysis/javaapp"
 	"github.com/modernizing/coca/pkg/application/api"
 	"github.com/modernizing/coca/pkg/application/bs"
@@ -191,6 +192,20 @@ func dispatch(op Op) (interface{}, error) {
 		results := app.Analysis()
 		app.Refactoring(results)
 		return len(results), nil
+
+	case "goIdent":
+		var a struct {
+			File string `json:"file"`
+		}
+		if err := json.Unmarshal(op.Args, &a); err != nil {
+			return nil, err
+		}
+		raw, err := os.ReadFile(a.File)
+		if err != nil {
+			return nil, err
+		}
+		app := &goapp.GoIdentApp{}
+		return app.Analysis(string(raw), a.File), nil
 
 	case "snapshot":
 		// harness op: the state of a directory tree (durable state between operations)
